@@ -89,6 +89,62 @@ CLAIMED.update({
               "The ulp bound itself is NOT decided; NEON is analysed from source only."),
         note="Trusted: syn parser and the enumerated intrinsic transfer table (unaligned loads only; unknown intrinsics fail closed).",
         design="5 C15", engine="astfacts+rules"),
+
+    "C04": dict(
+        level="other",
+        technique="agreement of getter / validated minimum / slice bound / returned count via forward substitution and bit-exact normal forms (syntax tree)",
+        text=("Decides for every state: per type the getter input_frames_next(), the minimum passed to validate_buffers, the slice bound actually used to read wave_in and the "
+              "returned input count are the same expression of the pre-state (likewise getter/validated minimum/returned count on the output side for fixed-output and synchronous "
+              "types); fixed-input types return the loop's frame counter; *_frames_max() read only construction-time fields; FFT adapters use one set of block formulas; process() "
+              "sizes by output_frames_next() and truncates to the written count. Fixed-input: the advertised output count must account for the carried position - today it does "
+              "not (KNOWN-FINDING, 2 types). Numeric inequalities next <= max are NOT decided."),
+        note="Trusted: syn parser, sympy. Exactness of block arithmetic is decided under C07.",
+        design="5 C04", engine="astfacts+rules"),
+    "C07": dict(
+        level="other",
+        technique="exact algebra on constructor sizing identities and adapter bookkeeping; cast-path rule for exact integer frame arithmetic (syntax tree)",
+        text=("Decides: the carried position is rebased by exactly the frames consumed and the fixed-output request follows it; with rate_in = g*a, rate_out = g*b all three FFT "
+              "constructors produce block sizes chunks*a / chunks*b with exact divisions (so in*rate_out == out*rate_in) and chunks is the exact ceiling division of the request; "
+              "FftFixedInOut processes and reports exactly one block pair per call; the buffered adapters conserve frames; no frame count goes usize->f32->usize and the integer "
+              "division helpers are exact. The asynchronous drift constant is NOT decided."),
+        note="Trusted: syn parser, sympy, num_integer::gcd.",
+        design="5 C07", engine="astfacts+rules"),
+    "C09": dict(
+        level="proof",
+        technique="may-allocate effect analysis on the resolved monomorphic call graph (rustc_private MIR driver), with positive controls",
+        text=("Sound over-approximation of all executions: from 154 run-time roots (7 types x {f32,f64} x {process_into_buffer::<Vec,Vec>, both ratio setters, set_chunk_size, reset, "
+              "6 getters}), the 14 VecResampler forwarders and every concrete SincInterpolator impl, the instance graph (resolved calls, drop glue, fn-pointer reifications) reaches no "
+              "allocator entry point, no opaque non-core function and no indirect call; virtual calls are closed by class-hierarchy analysis for rubato's own trait and by a stated "
+              "contract for realfft's process_with_scratch. The allocating wrappers must be classified allocating on every run (positive controls), otherwise the check reports itself broken."),
+        note="Trusted: rustc MIR/instance resolution (nightly), crate core cannot allocate, realfft process_with_scratch contract, caller buffers instantiated at Vec<T>. `log` feature off as the property states.",
+        design="5 C09", engine="mirfacts(M)+rules"),
+    "C16": dict(
+        level="other",
+        technique="wrapper dataflow: resolved-callee and argument-provenance rule on MIR for the 14 forwarders; structural rules on the three allocating default methods",
+        text=("Decides that each VecResampler method is exactly one call of the same-named Resampler method with its parameters in order and the result returned unchanged, that "
+              "process/process_partial size active channels with output_frames_next(), give masked channels empty vectors, forward input and mask unchanged and truncate every channel to "
+              "the written count, and that process_partial_into_buffer zero-pads to input_frames_next(), copies the min(len, frames) prefix and forwards the caller's output and mask. "
+              "Equality with the core call then holds for all inputs."),
+        note="Trusted: rustc MIR (nightly), syn parser.",
+        design="5 C16", engine="mirfacts(P)+astfacts+rules"),
+    "C17": dict(
+        level="other",
+        technique="non-interference by enumeration of declassification points on type-checked MIR",
+        text=("Decides the control-agreement half: in every generic body a sample-typed value (T, &T, Complex<T>, arrays, SIMD vectors) is never passed to a call returning a non-sample "
+              "value, containers of samples reach non-container results only through reviewed shape functions or the crate's own (inductively checked) functions, and the concrete "
+              "f32/f64 impls contain no float comparison or float->integer cast. Generic code cannot otherwise compare or cast T, so frame counts and control decisions are identical for "
+              "both instantiations. A positive control (sinc::sinc's == on T) must be found on every run. Numeric closeness of outputs is NOT decided."),
+        note="Trusted: rustc MIR and trait resolution, parametricity of generic std code, a 4-entry reviewed table.",
+        design="5 C17", engine="mirfacts(P)+rules"),
+    "C18": dict(
+        level="other",
+        technique="isolation analysis: reachability of statics / thread-locals / ambient inputs on the monomorphic call graph, ownership type walk, Send compile-fail witnesses",
+        text=("Replaces schedule exploration by an isolation argument decided statically: no run-time root reaches any static, thread-local, clock, environment, RNG or makes an indirect "
+              "call; constructors reach only rubato's immutable FEATURES tables and the reviewed std_detect cache; no pointer->integer casts or alignment queries in rubato; every struct field "
+              "is owned (no Rc/Cell/Mutex/Atomic/raw pointer), the only shared handles being Arc'd immutable FFT plans; (thorough) Send witnesses for all 14 instantiations and the boxed "
+              "wrapper plus compile-fail witnesses with compiling twins. Hence every interleaving is equivalent to a sequential one."),
+        note="Trusted: rustc MIR, immutability of realfft/rustfft plans, planner determinism; constructor half is best effort (indirect calls listed in evidence).",
+        design="5 C18", engine="mirfacts(M+P)+astfacts+witness"),
 })
 
 PENDING_REASON = "decidable clauses not built yet (implementation in progress, see DESIGN.md section 9)"
